@@ -204,6 +204,40 @@ func runC08(c *Ctx, r *Report, tier string) {
 	r.Check(len(got) == 3, "SCOPE", fpn, "state fields switched", c.pos(fps.Pos()), "lookup, command and positional are all replaced", fmt.Sprintf("only %d of 3 stored", len(got)))
 
 	// DIAGNOSE
+	// the diagnosis always diagnoses: estimateCommand never answers nil
+	if ec := c.mustFn(r, "(*parseState).estimateCommand"); ec != nil {
+		for _, ret := range returnsOf(ec) {
+			r.Check(!isConstNil(c.resolve(ret.Results[0])), "DIAGNOSE", c.fname(ec), "estimateCommand returns an error", c.ipos(ret), "every return is a constructed error", "estimateCommand can return nil: a missing or unknown required subcommand parses successfully")
+		}
+	}
+	// a command is marked optional exactly by its tag, whatever else has been declared so far
+	if h := c.Fn("(*Command).scanSubcommandHandler$1"); h != nil {
+		for _, s := range c.storesTo(c.Field("Command", "SubcommandsOptional")) {
+			if !c.actsFor(s.Fn, h) || c.term(s.Store.Val) != "true" {
+				continue
+			}
+			// guards beyond those of the command's creation
+			base := map[CtlDep]bool{}
+			for _, in := range c.instrs(h, c.isCallTo("(*Command).AddCommand")) {
+				for _, d := range c.controlDeps(h, in.Block()) {
+					base[d] = true
+				}
+			}
+			var extra []string
+			for _, d := range c.controlDeps(h, s.Store.Block()) {
+				if base[d] {
+					continue
+				}
+				if l, ok := c.edgeLit(d.B, d.Succ); ok && !(l.Pos && strings.HasPrefix(l.Term, "nonempty(call:(*multiTag).Get(") && strings.HasSuffix(l.Term, `"subcommands-optional"))`)) {
+					if l.Pos == false && strings.HasPrefix(l.Term, "nonnil(call:(*Command).AddCommand(") {
+						continue // err == nil of the creation itself
+					}
+					extra = append(extra, l.String())
+				}
+			}
+			r.Check(len(extra) == 0, "DIAGNOSE", c.fname(h), "subcommands-optional honoured whenever the tag is present", c.ipos(s.Store), "SubcommandsOptional = true under the tag test only", "the tag is honoured only under "+strings.Join(extra, "; "))
+		}
+	}
 	facts := c.newFacts(pa)
 	for _, in := range c.instrs(pa, c.dispatchPred()) {
 		_, ok := c.Requires(pa, isInstr(in), anyLit(litHas(false, litCmdsNonEmpty), litHas(true, litSubOptional)), facts)
